@@ -202,7 +202,7 @@ impl Node {
         while let Some(node) = remaining.pop_front() {
             remaining.extend(node.children.borrow().iter().cloned());
 
-            let NodeData::Element { name, .. } = &self.data else {
+            let NodeData::Element { name, .. } = &node.data else {
                 continue;
             };
             if name.local_name() == &local_name!("selectedcontent") {
@@ -229,13 +229,22 @@ impl Node {
         for child in self.children.borrow().iter() {
             // Step 2.1 Let childClone be the result of running clone given child with subtree set to true.
             let child_clone = child.clone_with_subtree();
+            child_clone
+                .parent
+                .set(Some(Rc::downgrade(&selectedcontent)));
 
             // Step 2.2 Append childClone to documentFragment.
             document_fragment.push(child_clone);
         }
 
         // Step 3. Replace all with documentFragment within selectedcontent.
-        *selectedcontent.children.borrow_mut() = document_fragment;
+        let old_children = mem::replace(
+            &mut *selectedcontent.children.borrow_mut(),
+            document_fragment,
+        );
+        for old_child in old_children {
+            old_child.parent.set(None);
+        }
     }
 
     /// Clones the node and all of its descendants, returning a handle to the new subtree.
@@ -243,17 +252,18 @@ impl Node {
     /// This function will run into infinite recursion when the DOM tree contains cycles and it makes
     /// no attempts to guard against that.
     fn clone_with_subtree(&self) -> Rc<Self> {
-        let children = self
-            .children
-            .borrow()
-            .iter()
-            .map(|child| child.clone_with_subtree())
-            .collect();
-        Rc::new(Self {
-            parent: Cell::new(self.parent()),
+        // The clone is not part of any tree yet; whoever inserts it sets its parent.
+        let clone = Rc::new(Self {
+            parent: Cell::new(None),
             data: self.data.clone(),
-            children: RefCell::new(children),
-        })
+            children: RefCell::new(Vec::new()),
+        });
+        for child in self.children.borrow().iter() {
+            let child_clone = child.clone_with_subtree();
+            child_clone.parent.set(Some(Rc::downgrade(&clone)));
+            clone.children.borrow_mut().push(child_clone);
+        }
+        clone
     }
 }
 
